@@ -9,9 +9,7 @@
    OCrash is a send on a closed channel or the close of a closed channel (a process-wide panic in Go) among
    stopChan, msgChan, activeMsgChan, activeMsgCompleteChan and reissuePackChan of the connection.
    A second answer to the same caller would be a send on its closed reply channel; that is the NoDup, which
-   holds under no_reuse only (C12_refuted_reuse: a reused serial loses a caller, it does not answer one twice,
-   but the invariant that proves NoDup needs the hypothesis; it holds for every run with at most 65 536 frames
-   on the connection, C12_no_reuse_when_few_frames).  Other panic classes (nil dereference, index out of
+   holds without any hypothesis: a reused serial loses a caller (C12_refuted_reuse), it never answers one twice.  Other panic classes (nil dereference, index out of
    range in a decoder, ...) are not in this model: C03/C10. *)
 From Coq Require Import List NArith Bool Arith.
 From JT.Base Require Import Sched.
@@ -22,11 +20,8 @@ Import ListNotations.
 Open Scope N_scope.
 
 Theorem C13_no_crash : forall s0 sched, let tr := trace step (init s0) sched in
-  ~ In OCrash tr /\ (no_reuse tr -> NoDup (returned tr)).
-Proof.
-  intros s0 sched tr. split; [apply no_crash_all|].
-  intros Hnr. exact (proj1 (one_result_all s0 sched Hnr)).
-Qed.
+  ~ In OCrash tr /\ NoDup (returned tr).
+Proof. intros s0 sched tr. split; [apply no_crash_all | apply nodup_returned_all]. Qed.
 Print Assumptions C13_no_crash.
 
 (* Once the terminal is gone, in every state in which no process of the server can move any more every
@@ -61,6 +56,15 @@ Theorem C13_quiescent_reached : forall s,
                 (length sched <= measure s)%nat.
 Proof. exact quiescent_reached. Qed.
 Print Assumptions C13_quiescent_reached.
+
+(* The same without choosing the schedule: ANY run of server steps that has not arrived in a quiescent state has
+   executed fewer than [measure s] steps.  So a scheduler that keeps running enabled goroutines - the only thing
+   assumed of Go's - is in a quiescent state after at most [measure s] steps of the server. *)
+Theorem C13_every_run_settles : forall sched s,
+  Forall (fun c => internal c = true) sched ->
+  ~ quiescent (final step s sched) -> (executed s sched < measure s)%nat.
+Proof. exact not_quiescent_few_steps. Qed.
+Print Assumptions C13_every_run_settles.
 
 (* ---- satisfiable: disconnect with one command outstanding, one queued in activeMsgChan and one still
         with the manager; everybody is answered, the final state is quiescent ---- *)
